@@ -97,8 +97,14 @@ func (g *VfC11Gate) Inherit(s *supervisor.Spec, prev supervisor.Object, m contex
 }
 func (g *VfC11Gate) Close() { vfC11Log("gate-close %s tag=%s", g.name, g.spec.Tag) }
 
+// tags ending in "F" render the pipeline with an explicit flow (Pipeline.reload then binds
+// runtime state into spec.Flow - an unchanged spec must still compare equal)
 func vfC11PipelineYAML(name, tag string) string {
-	return fmt.Sprintf("kind: Pipeline\nname: %s\nfilters:\n- name: f\n  kind: VfC11Rec\n  tag: %s\n", name, tag)
+	y := fmt.Sprintf("kind: Pipeline\nname: %s\nfilters:\n- name: f\n  kind: VfC11Rec\n  tag: %s\n", name, tag)
+	if strings.HasSuffix(tag, "F") {
+		y += "flow:\n- filter: f\n"
+	}
+	return y
 }
 func vfC11GateYAML(name, tag string) string {
 	return fmt.Sprintf("kind: VfC11Gate\nname: %s\ntag: %s\n", name, tag)
@@ -236,6 +242,9 @@ func TestVerifC11Controller(t *testing.T) {
 				k := key{rapid.SampledFrom(nss).Draw(t, "ns"), rapid.SampledFrom([]string{"pipeline", "pipeline", "gate"}).Draw(t, "kind"), rapid.SampledFrom(names).Draw(t, "name")}
 				op := rapid.SampledFrom([]string{"create", "update", "apply", "apply-same", "delete"}).Draw(t, "op")
 				tag := fmt.Sprintf("t%d", rapid.IntRange(0, 3).Draw(t, "tag"))
+				if rapid.Bool().Draw(t, "explicit-flow") {
+					tag += "F"
+				}
 				cur, live := model[k]
 				if op == "apply-same" {
 					if !live {
